@@ -231,8 +231,10 @@ package scipipe
 //@ define tmpOut(t *Task, k string) string = tmpDirOf(t) + "/" + tempPathOf(t.OutIPs[k].path)
 //@ define cmdLine(t *Task, cmd string) string = "cd " + tmpDirOf(t) + " && " + cmd + " && cd .."
 
+// (C03 relies on the name being the same in the resumed run as in the killed one: the determinism obligation and the
+// sorted-keys contracts of the helpers belong to C03 as well)
 //@ func (*Task).TempDir(t) (res)
-//@   props C14
+//@   props C03 C14
 //@   deterministic structural
 //@   assumes stable: res == tmpDirOf(t)
 //@   ensures no-slash: !contains(res, "/")
@@ -674,7 +676,7 @@ package scipipe
 //@ define sortedKeysOf(keys seq[string], d set[string]) bool = (forall i int :: 0 <= i && i < len(keys) ==> d[keys[i]]) && (forall k string :: d[k] ==> exists i int :: 0 <= i && i < len(keys) && keys[i] == k) && (forall i int, j int :: 0 <= i && i < j && j < len(keys) ==> keys[i] < keys[j])
 
 //@ func sortedStringMapKeys(kv) (keys)
-//@   props C14 C15
+//@   props C03 C14 C15
 //@   replay pure
 //@   deterministic by-contract the strictly sorted list of the keys of a map is unique (postcondition sorted-keys)
 //@   ensures sorted-keys: sortedKeysOf(keys, dom(kv))
@@ -684,7 +686,7 @@ package scipipe
 //@   loop 0 invariant nodup: forall i int, j int :: 0 <= i && i < j && j < len(keys) ==> keys[i] != keys[j]
 
 //@ func sortedFileIPMapKeys(kv) (keys)
-//@   props C14 C15
+//@   props C03 C14 C15
 //@   replay pure
 //@   deterministic by-contract the strictly sorted list of the keys of a map is unique (postcondition sorted-keys)
 //@   ensures sorted-keys: sortedKeysOf(keys, dom(kv))
@@ -694,7 +696,7 @@ package scipipe
 //@   loop 0 invariant nodup: forall i int, j int :: 0 <= i && i < j && j < len(keys) ==> keys[i] != keys[j]
 
 //@ func sortedFileIPSliceMapKeys(kv) (keys)
-//@   props C14
+//@   props C03 C14
 //@   replay pure
 //@   deterministic by-contract the strictly sorted list of the keys of a map is unique (postcondition sorted-keys)
 //@   ensures sorted-keys: sortedKeysOf(keys, dom(kv))
